@@ -26,7 +26,8 @@ def consts():
 def fl_op(rng, keys, u, whole=0.08):
     r = rng.random()
     if r < whole:
-        return {"op": rng.choice(["clear", "iter", "iter"])}
+        op = rng.choice(["clear", "iter", "iter", "reserve", "reserve"])
+        return {"op": op, "n": rng.choice([1, 2, 3, 5, 9, 20])} if op == "reserve" else {"op": op}
     op = rng.choice(["insert", "insert", "insert", "get", "get_key_value", "contains_key", "remove", "remove_entry",
                      "try_insert", "compute", "compute"])
     o = {"op": op, "k": rng.choice(keys)}
@@ -43,6 +44,25 @@ def flurry_job(rng, jid):
     """small tables (2..16 bins), 3..10 keys, identical / colliding / spread hashes; several resize
     generations are crossed with a handful of insertions"""
     u = gen.Uids()
+    if rng.random() < 0.15:
+        # 32 bins, one insertion short of the threshold: the resize to 64 has two strides of 16, so helpers
+        # (add_count joiners, help_transfer joiners) claim their own ranges
+        keys = list(range(1, 31))
+        prefix = [gen.ins(k, u) for k in range(1, 24)]
+        nt = rng.choice([2, 3, 3, 4])
+        threads = []
+        fresh = list(range(24, 31))
+        for _ in range(nt):
+            prog = []
+            for _ in range(rng.randint(1, 3)):
+                if fresh and rng.random() < 0.6:
+                    prog.append(gen.ins(fresh.pop(), u))
+                else:
+                    prog.append(fl_op(rng, keys[:26], u, whole=0.0))
+            threads.append(prog)
+        return {"id": jid, "cfg": "fl-big32", "kind": "map", "pin": rng.random() < 0.3, "scope": rng.choice(["op", "thread"]),
+                "hasher": gen.table_hasher({}), "cap": 21, "batch": 0, "prefix": prefix, "threads": threads,
+                "sched": gen.schedule(rng, nt, 800), "finals": keys, "rec": ["step", "site"], "budget": 300000}
     nkeys = rng.choice([3, 4, 5, 6, 8, 10])
     keys = list(range(1, nkeys + 1))
     shape = rng.choice(["id", "id", "same", "two", "rev"])
@@ -112,3 +132,80 @@ def validate(recs, tag, procs=10):
         for i, d in zip(bad[:40], diag):
             res[i].update({k: d[k] for k in ("at", "model", "out") if k in d})
     return res
+
+
+def leg(pid, tier, seed, verdict, n=None, tag=None):
+    """Run the step-level conformance leg: returns a coverage dict; rejections become violations of `pid`."""
+    rng = random.Random(seed * 7919 + 13)
+    n = n or (150 if tier == "quick" else 1500)
+    tag = tag or ("fl" + pid.lower())
+    jobs = [flurry_job(rng, "%s-%05d" % (tag, i)) for i in range(n)]
+    res = lib.run_jobs(jobs, tag, procs=8, timeout=1800)
+    recs, byid = [], {}
+    skipped = crashed = 0
+    for job, trace, crash in res:
+        if crash is not None:
+            crashed += 1
+            verdict.violation("crash:%s:%s" % (job["cfg"], crash.get("signal") or crash["rc"]), job["id"], {"job": job, "crash": crash},
+                              "the crate crashed/hung while running job %s (%s)" % (job["id"], str(crash)[:300]))
+            continue
+        if trace["outcome"] != "Done":
+            skipped += 1
+            continue
+        p = project.flurry_projection(trace, job, consts())
+        if p is None:
+            skipped += 1
+            continue
+        recs.append(p)
+        byid[p["id"]] = (job, trace, p)
+    out = validate(recs, tag, procs=10)
+    classes = {}
+    for p in recs:
+        for e in p["ev"]:
+            c = e["c"] + (":%d" % e["ln"] if e.get("ln") else "")
+            classes[c] = classes.get(c, 0) + 1
+    # binding self-test: one recorded value changed must be rejected
+    selftest = "skipped"
+    cand = next((p for p, r in zip(recs, out) if r["accepted"] and any(e["c"] == "add_cnt" for e in p["ev"])), None)
+    if cand is not None:
+        bad = json.loads(json.dumps(cand))
+        bad["id"] = "selftest"
+        e = next(e for e in bad["ev"] if e["c"] == "add_cnt")
+        e["x"] = e["x"] + 1
+        if validate([bad], tag + "st", procs=1)[0]["accepted"]:
+            raise lib.ToolError("Trace_Flurry accepted a run with a changed count increment: the replay is vacuous")
+        selftest = "a changed count increment in one recorded step is rejected"
+    nacc = 0
+    for r in out:
+        if r["accepted"]:
+            nacc += 1
+            continue
+        if r.get("toolerr") and not r.get("invariant"):
+            raise lib.ToolError("TLC failed on Trace_Flurry for %s:\n%s" % (r["id"], r.get("out", "")[-2000:]))
+        job, trace, p = byid[r["id"]]
+        job2 = dict(job)
+        job2["sched"] = {"kind": "list", "steps": trace["schedule"]}
+        at = r.get("at", 0)
+        ev = p["ev"][at - 1] if 0 < at <= len(p["ev"]) else None
+        what = ("invariant %s of Flurry.tla fails on the replayed state" % r["invariant"]) if r.get("invariant") else \
+               ("event %d of %d (%s) is not an action Flurry.tla allows thread %s to take there (model: %s)"
+                % (at, len(p["ev"]), json.dumps(ev), ev and ev.get("t"), r.get("model")))
+        sig = "step:%s:%s" % (r.get("invariant") or (ev or {}).get("c"), (r.get("model") or "").split(",")[2:3])
+        verdict.violation(sig, r["id"], {"job": job2, "event": ev, "at": at, "model": r.get("model"), "invariant": r.get("invariant"),
+                                         "events_before": p["ev"][max(0, at - 12):at]},
+                          "job %s: the recorded execution is not a behaviour of Flurry.tla: %s" % (r["id"], what))
+    return {"runs": len(recs), "accepted": nacc, "rejected": len(out) - nacc, "skipped_out_of_alphabet": skipped, "crashed": crashed, "selftest": selftest,
+            "events_replayed": sum(len(p["ev"]) for p in recs), "tlc_states": sum(r["states"] for r in out),
+            "event_classes": dict(sorted(classes.items())),
+            "resizes_replayed": sum(1 for p in recs for e in p["ev"] if e["c"] == "swap_table"),
+            "helper_joins_replayed": sum(1 for p in recs for e in p["ev"] if e["c"] == "cas_sc" and e.get("ok") == 1 and e.get("y", 0) < -1 and e.get("x", 0) < -1 and e["y"] == e["x"] + 1)}
+
+
+def run(pid, tier, seed, njobs=None):
+    """internal: ./check FL - the conformance leg alone (used for seeded-change trials)"""
+    t0 = time.time()
+    verdict = lib.Verdict(pid)
+    cov = leg(pid, tier, seed, verdict, n=njobs)
+    lib.log(json.dumps({k: v for k, v in cov.items() if k != "event_classes"}))
+    lib.log(json.dumps(cov["event_classes"]))
+    return verdict.finish()
